@@ -11,7 +11,9 @@ TEXTS = {
                     'to the buffer/two-pass machinery; TLC checks ReadBack exhaustively for every initial layout of 4 offsets in 2 '
                     'blocks x one transaction of <=2 (quick) / 3 (thorough) operations, strict and as-built. Random histories over all '
                     '16 column kinds, extreme values, 6 capacities and up to 3 blocks are run on the real code; the full projection '
-                    '(every reader flavour) after every transaction must equal the unique state the specification allows.',
+                    '(every reader flavour) after every transaction must equal the unique state the specification allows; every third put goes through '
+                    'the untyped writers (SetAny / SetMany); columns are created late, dropped and re-created under the same name (MC_Schema '
+                    'checks the same between two transactions exhaustively).',
             'note': _NOTE, 'technique': _T},
     'C02': {'text': 'RollbackNoTrace (action property), FillAccounting and the store invariants are model-checked for one writer with '
                     'failing inserts and rollbacks; sequential and scheduler-driven histories with rollbacks, failing inserts and an '
@@ -21,21 +23,24 @@ TEXTS = {
     'C03': {'text': 'IndexCoherent is an invariant of the specification (model-checked with three indexes over two columns incl. merge '
                     'and offset reuse) and is evaluated in every state of every validated real execution; histories create and drop '
                     'indexes at any point, on a primary and on a replica fed from the stream; With(index) and Row.Bool(index) per row '
-                    'are compared with the predicate evaluated by the specification on its own values.',
+                    'are compared with the predicate evaluated by the specification on its own values. MC_Schema model-checks indexes created (back-filled) '
+                    'and dropped between two transactions; DeleteAll and dropped / re-created source columns are part of the histories.',
             'note': _NOTE, 'technique': _T},
     'C04': {'text': 'FilterNames / FilterValue define the selection algebra in the specification (first Union, unknown names, typed '
                     'filters intersecting presence, the one ambiguous case accepted both ways); TLC (GenFilter.tla) enumerates every '
                     'chain of <= 2 operators over With/Without/Union/WithUnion x index, column, unknown names (pairs of names in '
                     'thorough) and the value predicates; every chain is replayed on the real code on random layouts (dense, sparse, 1-3 '
                     'blocks, rows lacking the column, reused offsets; all ten numeric types) and Count, the Range sequence with the '
-                    'values read at each stop, and Sum/Avg/Min/Max are bound to the specification; random longer chains on top.',
+                    'values read at each stop, and Sum/Avg/Min/Max are bound to the specification (Count and Range are read again after the '
+                    'aggregates: reading is pure); random longer chains on top.',
             'note': _NOTE, 'technique': _T + '; TLC-generated filter chains replayed into the implementation'},
     'C05': {'text': 'Buffer.tla transcribes the delta chain / section structure / rewrite of the commit buffer; RoundTrip, ChainSound and '
                     'AfterRewrite are model-checked for all sequences of <= 4 (quick) / 5 (thorough) operations over 5 offsets in 3 blocks, '
                     'strict and as-built. TLC (GenBuffer.tla) enumerates every sequence of <= 2 (quick) / 3 (thorough) writes over kinds x '
                     'width classes x offset moves; each is replayed into the real commit.Buffer and read back through Reader.Seek/Next, '
                     'Reader.Range per block, Buffer.WriteTo/ReadFrom, Commit.WriteTo/ReadFrom and a real Log file, before and after the '
-                    'merges are rewritten with the real Swap*; the trace specification binds sections, full and per-block reads.',
+                    'merges are rewritten with the real Swap* (results of the same length, longer, shorter, halved, empty); the trace '
+                    'specification binds sections, full and per-block reads. Thorough: all 220 k sequences of 3 writes.',
             'note': _NOTE + ' Values are compared by a digest of their exact bytes computed by the harness.',
             'technique': _T + '; TLC-generated operation sequences replayed into the implementation'},
     'C06': {'text': 'Converged is model-checked for 2 writers x <=2 operations + replica, every interleaving at the commit-protocol '
@@ -77,13 +82,15 @@ TEXTS = {
                     'concurrent transactions running InsertKey / UpsertKey / DeleteKey step by step (lookup, reserve, key write, return) '
                     'over 2 keys; KeyCheck / KeyEnd bind every real key call to its contract (fails iff ...). Sequential histories over 4 '
                     'keys with several key operations per transaction, rollbacks, re-keying; controlled schedules parked between lookup '
-                    'and insert (key.checked); every dump probes every key of the alphabet with QueryKey.',
+                    'and insert (key.checked); every dump probes every key of the alphabet (which includes the empty string) with QueryKey.',
             'note': _NOTE, 'technique': _T},
     'C13': {'text': 'Restore from a truncated file is the same action sequence that may stop early: RestoreEnd accepts success only if '
                     'every block image has been applied and the replayed commits are a prefix of the recorded ones; what was applied is '
                     'bound item by item (whole items only). Snapshots with 0-3 commits recorded beside them and commit log files of the '
                     'primary are cut at every s2 frame boundary +-2 and a random sample (quick) / every byte (thorough); each prefix is '
-                    'restored / ranged over into a fresh collection under a watchdog; panics and hangs are events no action explains.',
+                    'restored / ranged over into a fresh collection under a watchdog; panics and hangs are events no action explains. Two-block '
+                    'snapshots of several MB (blocks of 1.2 and of 2.7 MB, so that a compression frame ends exactly on a block end) are cut at every '
+                    'frame boundary +-2 and the applied blocks / commits are bound by PrefixTrace.tla.',
             'note': _NOTE + ' The exhaustive part covers the untruncated protocol (MC_Snap); truncation points are enumerated on the real bytes.',
             'technique': _T + '; fault enumeration over byte offsets'},
     'C14': {'text': 'SnapFail (from any point of the snapshot protocol) must leave the recorder detached (RecorderClean, model-checked with '
@@ -99,20 +106,22 @@ TEXTS = {
             'note': _NOTE, 'technique': _T},
     'C16': {'text': 'SortCoherent is an invariant (model-checked with a sorted index over a string column); every dump logs the Ascend '
                     'sequence with the value read at each stop: it must be a permutation of the rows holding a value, non-decreasing '
-                    'in the specification\'s own lexicographic order.',
+                    'in the specification\'s own lexicographic order. MC_Schema model-checks a sorted index created after the data (back-fill) between two '
+                    'transactions; the sorted column may be dropped (the index is then detached) and re-created.',
             'note': _NOTE, 'technique': _T},
     'C17': {'text': 'Expire.tla: NoEarlyExpiry (action property), ExpiredGoes (liveness under weak fairness of tick, scan and commit, no '
                     'state constraint) and NoTTLStays are model-checked for 2-3 rows with an extender, strict and as-built. Timed '
                     'executions of the real vacuum (intervals 1/5/50 ms; rows without TTL, short, long and extended TTLs; inserts, '
                     'extensions and unrelated updates meanwhile; a restored snapshot and a replica with their own vacuum) are validated: '
                     'every removal needs a passed deadline at the in-latch timestamp, rows overdue by more than the slack must be gone, rows '
-                    'not due must be there, Extend moves the deadline by exactly its argument, copies carry the same deadlines.',
+                    'not due must be there, Extend moves the deadline by exactly its argument (also when the deadline was set by the same transaction or '
+                    'insert), copies carry the same deadlines.',
             'note': _NOTE + ' Wall-clock based: the slack is 10 intervals + 3 s.', 'technique': _T},
     'C18': {'text': 'Locks.tla lists for every code path the locks held around each access to each shared variable (Go RWMutex writer '
                     'preference included); TLC checks deadlock freedom and the lockset invariant NoRace for 5-6 concurrent paths, with the '
                     'four variables the as-built protocol leaves unordered excused (and fails without the excuse: negative control); '
                     'termination under fairness on 3 paths (thorough). The stress workload (growth across blocks, offset reuse, snapshots, '
-                    'restores, index builds and drops, keyed upserts, a replica, readers and writers) runs under the race detector with a '
+                    'restores, index builds and drops, keyed upserts, aborted inserting transactions, failing inserts, Ascend, a replica, readers and writers) runs under the race detector with a '
                     'watchdog; every report and every panic is mapped to a model variable and judged by LocksTrace.tla.',
             'note': 'The race detector explores, the specification classifies: this is the property where the technique contributes least (TLA+ '
                     'cannot observe memory accesses). Trusted: the function table of bin/racemap.py; reports whose functions map to no '
@@ -120,7 +129,8 @@ TEXTS = {
             'technique': 'TLA+ lock-protocol model checked with TLC (deadlock, lockset); race-detector exploration of the implementation classified by the model'},
     'C19': {'text': 'The specification computes, per Apply, the trigger calls (per trigger and row, in issue order, final values, one '
                     'per deleted row); the real trigger callbacks recorded between two in-latch logger events must equal them; '
-                    'rollbacks must come with no callback.',
+                    'rollbacks must come with no callback. Triggers are created and dropped mid-history (MC_Schema: exhaustively between two '
+                    'transactions), their source column may be dropped (detached trigger: deletions only).',
             'note': _NOTE, 'technique': _T},
 }
 
